@@ -16,7 +16,8 @@ LintedFile = ref_class("sqlfluff.core.linter.linted_file:LintedFile", path=Text,
 LintedDir = ref_class("sqlfluff.core.linter.linted_dir:LintedDir", files=TList(LintedFile),
                       num_unfiltered_tmp_prs_errors=INT, num_tmp_prs_errors=INT, num_unfixable_lint_errors=INT,
                       retain_files=BOOL)
-LintingResult = ref_class("sqlfluff.core.linter.linting_result:LintingResult", paths=TList(LintedDir))
+LintingResult = ref_class("sqlfluff.core.linter.linting_result:LintingResult", paths=TList(LintedDir),
+                          g_fixable_lint=INT, g_unfixable_lint=INT, g_templater=INT)
 Linter = ref_class("sqlfluff.core.linter.linter:Linter", config=FluffConfig)
 
 
@@ -79,7 +80,8 @@ class lint_string_wrapped:
     ret = LintingResult
 
     def ensures(self, string, fname="<string input>", fix=False, stdin_filename=None, result=None):
-        return counters_ok(result) and len(result.paths) == 1 and len(result.paths[0].files) == 1
+        return (counters_ok(result) and len(result.paths) == 1 and len(result.paths[0].files) == 1
+                and result.g_fixable_lint >= 0 and result.g_unfixable_lint >= 0 and result.g_templater >= 0)
 
 
 @external("sqlfluff.core.config.fluffconfig:FluffConfig.get", PROP)
